@@ -1070,6 +1070,16 @@ fn count_threads() -> (usize, usize) {
     let mut all = 0;
     if let Ok(rd) = std::fs::read_dir("/proc/self/task") {
         for e in rd.flatten() {
+            // a thread that has already been joined can stay listed, as a zombie, until the kernel
+            // has released it - on an oversubscribed machine for seconds; it is not a live thread
+            if let Ok(stat) = std::fs::read_to_string(e.path().join("stat")) {
+                let state = stat.rsplit(')').next().and_then(|rest| rest.trim_start().chars().next());
+                if matches!(state, Some('Z' | 'X' | 'x')) {
+                    continue;
+                }
+            } else {
+                continue; // gone between readdir and read
+            }
             all += 1;
             if let Ok(comm) = std::fs::read_to_string(e.path().join("comm")) {
                 if comm.starts_with(POOL_NAME) {
@@ -1288,7 +1298,7 @@ fn judge(case: &Case, res: &Resolved, sh: &Arc<Shared>, base_all: usize, real: b
 
     // threads: poll briefly, an already joined thread may still be listed for a moment
     let mut left = count_threads();
-    for _ in 0..400 {
+    for _ in 0..2000 {
         if left.0 == 0 && left.1 <= base_all {
             break;
         }
